@@ -771,6 +771,12 @@ func (env *CEnv) call(c *ECall) CVal {
 		a := env.eval(c.Args[0])
 		b := env.eval(c.Args[1])
 		return CVal{T: app(SBool, "str.contains", a.T, b.T), Type: tBool}
+	case "trimPrefix":
+		a := env.eval(c.Args[0])
+		p := env.eval(c.Args[1])
+		la := app(SInt, "str.len", a.T)
+		lp := app(SInt, "str.len", p.T)
+		return CVal{T: Ite(app(SBool, "str.prefixof", p.T, a.T), app(SString, "str.substr", a.T, lp, Sub(la, lp)), a.T), Type: tString}
 	case "hasPrefix":
 		s := env.eval(c.Args[0])
 		p := env.eval(c.Args[1])
